@@ -22,6 +22,7 @@ hdr = ("### 8.4 Seeded defects (written by sub-agents that saw only a property's
        "column `at delivery` is the verdict of the checks AS THEY WERE when the seed arrived -- `missed` seeds are the ones that drove the rules named in the note; "
        "`not-decided` seeds are still not reported (value-level questions outside static reach, recorded honestly).  "
        "Round 3 (ids 7-9, twelve properties, agents told which mechanisms and sites rounds 1-2 had used and asked for different ones): same columns.  "
+       "Round 4 (ids 10-12, the eight properties that had no round 3: C02 C04 C08 C10 C12 C16 C17 C20; same instructions as round 3).  "
        "Six older seeds whose patches no longer applied after later fix: commits were re-written by hand for HEAD (`ported` in meta.json).\n\n"
        "| seed | round | where | what it does | at delivery | verdict of the checks now | first report |\n|---|---|---|---|---|---|---|\n")
 txt = hdr + "\n".join(rows) + "\n"
